@@ -106,7 +106,11 @@ func (a *setvarFn) Init(_ plugintypes.RuleMetadata, data string) error {
 
 func (a *setvarFn) Evaluate(r plugintypes.RuleMetadata, tx plugintypes.TransactionState) {
 	key := a.key.Expand(tx)
-	value := a.value.Expand(tx)
+	// the removal form (setvar:!tx.name) has no value macro
+	value := ""
+	if a.value != nil {
+		value = a.value.Expand(tx)
+	}
 	tx.DebugLogger().Debug().
 		Str("var_key", key).
 		Str("var_value", value).
